@@ -372,6 +372,21 @@ Definition sizes_sorted (labels : list nat) (k : nat) : Prop :=
 (** Number of clusters of a labelling. *)
 Definition num_clusters (labels : list nat) : nat := length (nodup Nat.eq_dec labels).
 
+(** Rows of [rows] (numbered from t) whose flag is false. *)
+Fixpoint urows (fl : nat -> bool) (t : nat) (rows : dendrogram) : dendrogram :=
+  match rows with
+  | [] => []
+  | r :: rest => if fl t then urows fl (S t) rest else r :: urows fl (S t) rest
+  end.
+
+(** All the leaves of a list carry one label. *)
+Definition all_same (labels : list nat) (L : list nat) : bool :=
+  forallb (fun u => Nat.eqb (nth u labels 0) (nth (hd 0 L) labels 0)) L.
+
+(** The merges of D that join leaves of different clusters (those a cut did not apply), in row order. *)
+Definition unmerged_rows (n : nat) (D : dendrogram) (labels : list nat) : dendrogram :=
+  urows (fun t => all_same labels (leaves n D (n + t))) 0 D.
+
 (** Number of merges strictly below the cut height. *)
 Definition below (cut : option Q) (D : dendrogram) : nat := length (filter (below_cut cut) D).
 
